@@ -194,8 +194,43 @@ def inv_018_017(d):
     d["server_conn"]["peer_address"] = d["server_conn"].pop("ip_address", None); d.pop("marked", None); d["version"] = [0, 17]
 
 
+def inv_017_016(d):
+    d = _bytes_keys(d)                      # formats <= 0.16: bytes keys throughout
+    d[b"server_conn"].pop(b"peer_address", None); d[b"version"] = [0, 16]
+    return d
+
+
+def inv_016_015(d):
+    for m in (b"request", b"response"):
+        if isinstance(d.get(m), dict) and b"content" in d[m]: d[m][b"body"] = d[m].pop(b"content")
+    if isinstance(d.get(b"response"), dict) and b"reason" in d[b"response"]: d[b"response"][b"msg"] = d[b"response"].pop(b"reason")
+    if isinstance(d.get(b"request"), dict): d[b"request"][b"form_out"] = b"relative"
+    d[b"version"] = [0, 15]
+
+
+def inv_015_014(d): d[b"version"] = [0, 14]
+
+
+def inv_014_013(d):
+    r = d.get(b"request")
+    if isinstance(r, dict):
+        r[b"form_in"] = r.pop(b"first_line_format", b"relative"); r.pop(b"http_version", None); r[b"httpversion"] = [1, 1]
+    r = d.get(b"response")
+    if isinstance(r, dict):
+        r.pop(b"http_version", None); r[b"httpversion"] = [1, 1]; r[b"code"] = r.pop(b"status_code", 200); r[b"content"] = r.pop(b"body", b"")
+    d[b"server_conn"][b"state"] = []; d[b"server_conn"].pop(b"via", None)
+    d[b"version"] = [0, 13]
+
+
+def inv_013_012(d): d[b"version"] = [0, 12]
+
+
+def inv_012_011(d): d[b"version"] = [0, 11]
+
+
 # (major, minor) -> the inverse that produces a state of that format from its successor's
-TUPLE_CHAIN = [((3, 0), inv_4_300), ((2, 0), inv_300_200), ((1, 0), inv_200_100), ((0, 19), inv_100_019), ((0, 18), inv_019_018), ((0, 17), inv_018_017)]
+TUPLE_CHAIN = [((3, 0), inv_4_300), ((2, 0), inv_300_200), ((1, 0), inv_200_100), ((0, 19), inv_100_019), ((0, 18), inv_019_018), ((0, 17), inv_018_017),
+               ((0, 16), inv_017_016), ((0, 15), inv_016_015), ((0, 14), inv_015_014), ((0, 13), inv_014_013), ((0, 12), inv_013_012), ((0, 11), inv_012_011)]
 
 
 def _bytes_keys(o, top=True):
@@ -245,12 +280,12 @@ class Check(PropertyCheck):
                   "whole table + general lemmas): every historical version key reaches the current format in a strictly "
                   "version-increasing chain (the migrate loop terminates from every version value whatsoever), the current "
                   "version is a fixed point, unknown versions are rejected with 'please update' exactly for larger "
-                  "integers. The field surgery of the sixteen converters for integer formats 5..20 is modelled over the tnetstring value type of C36 (Model/C38_Conv.lean) and proved to write exactly the next version (conv_writes_next_version), to leave every top-level key outside a stated per-converter set untouched (conv_frame; request/id/type/error/intercepted never change: request_preserved; response only by 13->14), plus marked_migration, mode_dropped, proxy_mode_added, state_dropped, timestamp_created_from_request; the older formats 5..9 (convOld: ssl->tls renames, tls_extensions, trailers, first_line_format/authority/is_replay, the 9->10 connection rebuild incl. the nested via connection) with convOld_writes_next_version, convOld_frame, old_identity_preserved, old_request_preserved (only 7->8 and 8->9 touch the request), request_fields_8_9, trailers_added_7_8, tls_renamed_5_6; 18->19 (renames, defaults, the UTF-8/backslashreplace decode of host bytes built on the C35 decoder transcription, sni=True repair) with conv_18_19_spec, client_frame_18_19/client_renames_18_19, server_frame_18_19/server_renames_18_19, host_decode_valid_utf8/host_decode_ascii (a valid-UTF-8 host is the same text afterwards) and host_decode_escape; the two converters with PROCESS-GLOBAL tables are modelled with their tables as explicit state (Model/C38_State.lean): 11->12 with `_websocket_handshakes` (handshake_stored, ws_takes_stored_handshake, ws_without_handshake_dummy, plain_is_stateless, table_frame_11_12 and, by induction over any run of records, stored_until_consumed) and 4->5 with the connection-id tables and the uuid supply as a parameter (client_id_is_recorded_id, ids_stable_4_5, ids_stable_over_run); the release-numbered formats 0.17..3.0 (Model/C38_Tuple.lean: convert_unicode with its recursive key conversion and strict UTF-8 decode of type/id/first_line_format/error.msg, the address unwrapping of 1.0->2.0, 2.0->3.0, 3.0->4) with tuple_writes_next_version and tuple_frame_1_2_3; the whole modelled chain 12->21 keeps the request and arrives at version 21 (steps_request_preserved by induction over any number of converter steps, chain_request_preserved); each step of the real converters is compared byte for byte (re-encoded tnetstring) with the Lean converter. Whole-chain behaviour is validated differentially: all shipped historical dumps, "
+                  "integers. The field surgery of the sixteen converters for integer formats 5..20 is modelled over the tnetstring value type of C36 (Model/C38_Conv.lean) and proved to write exactly the next version (conv_writes_next_version), to leave every top-level key outside a stated per-converter set untouched (conv_frame; request/id/type/error/intercepted never change: request_preserved; response only by 13->14), plus marked_migration, mode_dropped, proxy_mode_added, state_dropped, timestamp_created_from_request; the older formats 5..9 (convOld: ssl->tls renames, tls_extensions, trailers, first_line_format/authority/is_replay, the 9->10 connection rebuild incl. the nested via connection) with convOld_writes_next_version, convOld_frame, old_identity_preserved, old_request_preserved (only 7->8 and 8->9 touch the request), request_fields_8_9, trailers_added_7_8, tls_renamed_5_6; 18->19 (renames, defaults, the UTF-8/backslashreplace decode of host bytes built on the C35 decoder transcription, sni=True repair) with conv_18_19_spec, client_frame_18_19/client_renames_18_19, server_frame_18_19/server_renames_18_19, host_decode_valid_utf8/host_decode_ascii (a valid-UTF-8 host is the same text afterwards) and host_decode_escape; the two converters with PROCESS-GLOBAL tables are modelled with their tables as explicit state (Model/C38_State.lean): 11->12 with `_websocket_handshakes` (handshake_stored, ws_takes_stored_handshake, ws_without_handshake_dummy, plain_is_stateless, table_frame_11_12 and, by induction over any run of records, stored_until_consumed) and 4->5 with the connection-id tables and the uuid supply as a parameter (client_id_is_recorded_id, ids_stable_4_5, ids_stable_over_run); the release-numbered formats 0.17..3.0 (Model/C38_Tuple.lean: convert_unicode with its recursive key conversion and strict UTF-8 decode of type/id/first_line_format/error.msg, the address unwrapping of 1.0->2.0, 2.0->3.0, 3.0->4) with tuple_writes_next_version and tuple_frame_1_2_3, and the six oldest formats 0.11..0.16 over bytes keys (Model/C38_Bytes.lean: form_in/httpversion/code/content renames, body/msg renames, peer_address) with bytes_writes_next_version and bytes_frame - so EVERY converter registered in compat.converters (29) has a Lean transcription compared step by step with the real one; the whole modelled chain 12->21 keeps the request and arrives at version 21 (steps_request_preserved by induction over any number of converter steps, chain_request_preserved); each step of the real converters is compared byte for byte (re-encoded tnetstring) with the Lean converter. Whole-chain behaviour is validated differentially: all shipped historical dumps, "
                   "synthetic states downgraded by inverse converters to each version 10..20, current states, and unknown "
                   "future versions go through the real migrate_flow / FlowReader / FlowWriter.")
     level_note = ("partial: proved are the version chain, the loop and the per-converter field facts for formats 4..20 (4->5: uuid4 is a parameter, table keys are compared through their tnetstring encoding "
-                  "- an int and an equal float would differ - and only list-valued addresses are generated: what format 4 wrote for an unconnected server is not known here; 13->14 timestamp repair only for integer timestamps); the six oldest tuple-version converters 0.11..0.16 (bytes keys throughout) "
-                  "are validated only (goldens for shipped dumps, inverse-converter "
+                  "- an int and an equal float would differ - and only list-valued addresses are generated: what format 4 wrote for an unconnected server is not known here; 13->14 timestamp repair only for integer timestamps); str() of non-int httpversion items in 0.13->0.14 is not modelled (not generated); whole-chain behaviour from the tuple formats is "
+                  "validated (goldens for shipped dumps, inverse-converter "
                   "round trips for versions 10..20). "
                   "trusted: Lean kernel, the AST-based translator (reads `data[\"version\"] = …` in each converter).")
     technique = "Lean 4 proof over a table regenerated from the source (decide +kernel + lemmas) + differential migration runs"
@@ -374,8 +409,9 @@ class Check(PropertyCheck):
                     yield {"kind": "idseq", "state": canon_in(st),
                            "recs": [{"c": rng.randint(0, 2), "s": rng.randint(0, 2), "via": rng.choice([None, None, 0, 1, 2])} for _ in range(rng.randint(1, 6))]}
             elif r < 0.24 and st.get("websocket") is None:
-                v = rng.choice([[0, 17], [0, 17], [0, 18], [0, 18], [0, 19], [1, 0], [1, 0], [2, 0], [3, 0]])
-                tw = {(0, 17): ["bytes-keys", "bytes-keys", "bytes-keys-bad", "dup-key", None], (0, 18): ["via-conn", "bytes-keys", "no-request", None],
+                v = rng.choice([[0, 11], [0, 12], [0, 13], [0, 13], [0, 13], [0, 14], [0, 15], [0, 15], [0, 16], [0, 17], [0, 17], [0, 18], [0, 18], [0, 19], [1, 0], [1, 0], [2, 0], [3, 0]])
+                tw = {(0, 11): [None], (0, 12): [None], (0, 13): ["no-response", "http2", "no-state", None, None], (0, 14): [None], (0, 15): ["no-body", "no-msg", "no-response", None],
+                      (0, 16): [None],(0, 17): ["bytes-keys", "bytes-keys", "bytes-keys-bad", "dup-key", None], (0, 18): ["via-conn", "bytes-keys", "no-request", None],
                       (0, 19): ["bytes-keys", "bytes-keys-bad", None], (1, 0): ["via-conn", "ip-none", "addr-none", None], (2, 0): ["via-conn", None], (3, 0): [None]}[tuple(v)]
                 yield {"kind": "convt", "v": v, "state": canon_in(st), "tweak": rng.choice(tw)}
             elif r < 0.3:
@@ -537,7 +573,7 @@ class Check(PropertyCheck):
                 out = compat.converters[tuple(case["v"])](copy.deepcopy(old2))
             except Exception as e:
                 return {"wire": wire.hex(), "out": None, "exc": f"{type(e).__name__}: {e}"[:120]}
-            ver = out.get("version")
+            ver = out.get("version", out.get(b"version"))
             return {"wire": wire.hex(), "out": tnetstring.dumps(out).hex(), "version": list(ver) if isinstance(ver, (tuple, list)) else ver,
                     "str_keys": all(isinstance(k_, str) for k_ in out)}
         if k == "conv":
@@ -665,7 +701,8 @@ class Check(PropertyCheck):
         old, _ = self._conv_input({"v": 5, "state": case["state"]})
         inv_5_4(old)
         for key, inv in TUPLE_CHAIN:
-            inv(old)
+            r_ = inv(old)
+            if r_ is not None: old = r_
             if list(key) == list(case["v"]): break
         else:
             raise Skip()
@@ -681,6 +718,15 @@ class Check(PropertyCheck):
             old = _bytes_keys(old); old[b"id"] = b"\xff\xfe"
         elif t == "dup-key":
             old = _bytes_keys(old); old["marked"] = True; old["type"] = "http"
+        elif t == "no-response": old[b"response"] = None
+        elif t == "http2":
+            old[b"request"][b"httpversion"] = [2, 0]
+            if isinstance(old.get(b"response"), dict): old[b"response"][b"httpversion"] = [2, 0]
+        elif t == "no-body":
+            old[b"request"].pop(b"body", None)
+        elif t == "no-msg":
+            if isinstance(old.get(b"response"), dict): old[b"response"].pop(b"msg", None)
+        elif t == "no-state": old[b"server_conn"].pop(b"state", None)
         wire = tnetstring.dumps(old)
         return tnetstring.loads(wire), wire
 
@@ -830,9 +876,10 @@ class Check(PropertyCheck):
                         fails.append(f"converter 18: sni=True with address host {hx} became sni {obs['hosts'][-1][2]!r}")
         elif k == "convt":
             # tuple_writes_next_version, asked of the real converters; the py2-era tweaks with undecodable text only feed the tie
-            want = {(0, 17): [0, 18], (0, 18): [0, 19], (0, 19): [1, 0, 0], (1, 0): [2, 0, 0], (2, 0): [3, 0, 0], (3, 0): 4}[tuple(case["v"])]
+            want = {(0, 11): [0, 12], (0, 12): [0, 13], (0, 13): [0, 14], (0, 14): [0, 15], (0, 15): [0, 16], (0, 16): [0, 17], (0, 17): [0, 18], (0, 18): [0, 19], (0, 19): [1, 0, 0], (1, 0): [2, 0, 0], (2, 0): [3, 0, 0], (3, 0): 4}[tuple(case["v"])]
             if obs["out"] is None:
-                if case.get("tweak") not in ("bytes-keys-bad", "addr-none", "no-request"):
+                noresp = tuple(case["v"]) in ((0, 13), (0, 15)) and not canon_out(case["state"]).get("response")   # these two index into the response
+                if case.get("tweak") not in ("bytes-keys-bad", "addr-none", "no-request", "no-response", "no-state") and not noresp:
                     fails.append(f"converter {case['v']} raised on a state of its own format: {obs['exc']}")
             else:
                 if obs["version"] != want: fails.append(f"converter {case['v']} wrote version {obs['version']}, expected {want}")
